@@ -47,7 +47,7 @@ def _init_worker(proto: dict, tree: str) -> None:
 
 
 def _worker(job: tuple) -> dict:
-    key, tier = job
+    key, tier, shard, nshards = job
     from pyvc.contract import REGISTRY
     from pyvc.replay import replay
     from pyvc.solve import discharge
@@ -56,11 +56,16 @@ def _worker(job: tuple) -> dict:
         eng = _engine()
         c = REGISTRY.contracts.get(key) or REGISTRY.lemmas.get(key)
         obs = eng.verify(c)
+        if nshards > 1:
+            # every shard regenerates all obligations (cheap) and discharges its share (expensive)
+            obs = [ob for i, ob in enumerate(obs) if i % nshards == shard or ob.kind in ("cover", "unsupported")]
+            if shard != 0:
+                obs = [ob for ob in obs if ob.kind not in ("cover", "unsupported")]
         rows = []
         from pyvc.solve import reset_budget
         reset_budget(6 if tier == "quick" else 20)
-        for ob in obs:
-            discharge(ob, second_opinion=(tier == "thorough" and os.environ.get("PYVC_SECOND", "1") == "1"))
+        from pyvc.solve import discharge_all
+        discharge_all(obs, second_opinion=(tier == "thorough" and os.environ.get("PYVC_SECOND", "1") == "1"))
         refuted = [o for o in obs if o.status == "refuted" and o.kind != "cover"]
         replayed = 0
         for ob in obs:
@@ -152,7 +157,8 @@ def main() -> int:
     meta = PROPS[pid]
     todo = [c for c in REGISTRY.for_property(pid) if not c.trusted and not c.inline]
     trusted = [c.key for c in REGISTRY.for_property(pid) if c.trusted]
-    jobs = [(c.key, tier) for c in todo]
+    jobs = [(c.key, tier, i, c.shards) for c in todo for i in range(c.shards)]
+    jobs.sort(key=lambda j: -j[3])      # start the heavy (sharded) functions first
     results: list[dict] = []
     if jobs:
         nproc = min(int(os.environ.get("PYVC_PROCS", "16")), len(jobs))
@@ -240,7 +246,14 @@ def main() -> int:
     funcs = []
     assumptions: set[str] = set(meta.get("assumptions", []))
     models_used: set[str] = set()
+    merged: dict[str, dict] = {}
     for r in results:
+        if r["key"] in merged:
+            merged[r["key"]]["rows"] = merged[r["key"]]["rows"] + r["rows"]
+            merged[r["key"]]["wall"] = max(merged[r["key"]]["wall"], r["wall"])
+        else:
+            merged[r["key"]] = dict(r)
+    for r in merged.values():
         st = r.get("stats", {})
         funcs.append({"function": r["key"], "source_sha": st.get("sha", ""), "paths": st.get("paths", 0),
                       "statements_executed": st.get("stmts", 0), "lemma": r.get("lemma", False),
